@@ -53,7 +53,7 @@ DEFAULTS = {
     }
     for soc, p in (("nrf54h20", "nRF54H20"), ("nrf9280", "nRF9280"))
 }
-BASES = [0x0E1ED000, 0x0000F000, 0x00FFD000, 0x0FFF8000, 0x1000, 0xFFFF0000 - 0x4000]
+BASES = [0x0E1ED000, 0, 0x0000F000, 0x00FFD000, 0x0FFF8000, 0x1000, 0xFFFF0000 - 0x4000]
 SEVERED_KEYS = (15, 16, 18, 20, 23)
 CONFIG_KEY = {r: ("ROOT" if r == "APP_ROOT" else r) for r in ROLES}
 
